@@ -143,14 +143,6 @@ Proof.
 Qed.
 
 (* ---------- parameter nesting depth: the fuel lookup needs ---------- *)
-Fixpoint pdepth (t : T) : nat :=
-  match t with
-  | Node _ lits par _ =>
-    Nat.max ((fix go (l : list (byte * T)) : nat :=
-                match l with [] => 0 | ct :: r => Nat.max (pdepth (snd ct)) (go r) end) lits)
-            (match par with Some tp => S (pdepth tp) | None => 0 end)
-  end.
-
 Lemma pdepth_lit (leaf : option VT) (lits : list (byte * T)) (par : option T) (wild : option VT) c t' :
   In (c, t') lits -> pdepth t' <= pdepth (Node leaf lits par wild).
 Proof.
@@ -315,6 +307,24 @@ Proof.
   - apply andb_true_iff in H. destruct H as [Hn Hrep]. apply negb_true_iff in Hn. rewrite Hn.
     apply repr_check_sound in Hrep.
     pose proof (run_refines d (model_trie pats) (pdepth (model_trie pats)) 1%N Hrep (le_n _) p [] []) as Hres.
+    cbn [lookup]. cbn [backtrack] in Hres.
+    destruct (tlookup (model_trie pats) p) as [[[v ns] vs]|]; cbn [result] in Hres.
+    + destruct Hres as (nd & -> & Hnd). cbn [app]. rewrite Hnd. reflexivity.
+    + rewrite Hres. reflexivity.
+Qed.
+
+(* the same for every fuel above the parameter nesting depth of the trie (the fuel the check uses) *)
+Theorem da_lookup_refines_fuel (pats : list (bytes * V)) d f :
+  repr_ok veqb pats d = true -> pdepth (model_trie pats) < f ->
+  forall p, da_router_lookup f pats d p = router_lookup pats p.
+Proof.
+  unfold repr_ok. intros H Hf p. destruct f as [|f]; [lia|].
+  unfold da_router_lookup, router_lookup. destruct (static_lookup pats p None); [reflexivity|].
+  destruct (param_pats pats) as [|kv r] eqn:Epp.
+  - rewrite H. unfold model_trie. rewrite Epp. destruct p; reflexivity.
+  - apply andb_true_iff in H. destruct H as [Hn Hrep]. apply negb_true_iff in Hn. rewrite Hn.
+    apply repr_check_sound in Hrep.
+    pose proof (run_refines d (model_trie pats) f 1%N Hrep ltac:(lia) p [] []) as Hres.
     cbn [lookup]. cbn [backtrack] in Hres.
     destruct (tlookup (model_trie pats) p) as [[[v ns] vs]|]; cbn [result] in Hres.
     + destruct Hres as (nd & -> & Hnd). cbn [app]. rewrite Hnd. reflexivity.
